@@ -36,6 +36,14 @@ def run(chk):
         if tgt is not None and tgt.get("k") == "member" and tgt.get("q", "").startswith(CB + "::State::"):
             gassign[tgt["name"]] = src
             gnode[tgt["name"]] = n
+    if not gassign:
+        # aggregate initialisation `State snapshot{a, b, c};`: the initialisers belong to the fields in declaration order
+        for n in walk(g["body"]):
+            if n.get("k") in ("construct", "initlist") and prog.T(g, n.get("t")).replace("const ", "").strip() == CB + "::State" and len(n.get("args") or []) == len(st["fields"]):
+                for fl_, a_ in zip(st["fields"], n["args"]):
+                    gassign[fl_["name"]] = a_
+                    gnode[fl_["name"]] = n
+                break
     sassign = {}
     for n in walk(s["body"]):
         tgt, src = assignment(n)
